@@ -213,7 +213,12 @@ func execGcs(c Case) string {
 		if err != nil {
 			return ks + " " + gcsErr(err)
 		}
-		return ks + " " + filterObs(f)
+		obs := filterObs(f)
+		// Build does not consume the builder: a second Build gives the same filter, and the first one is still what it was
+		if f2, err2 := b.Build(); err2 != nil || filterObs(f2) != obs || filterObs(f) != obs {
+			return ks + " " + obs + " SECOND-BUILD-DIFFERS"
+		}
+		return ks + " " + obs
 	case "bldrand": // bldrand <variant> <p> <n> <m> <items>: a builder with a random key behaves like the builder given that key
 		P, N, M := uint8(atoi(a[1])), uint32(atou(a[2])), atou(a[3])
 		var b *builder.GCSBuilder
